@@ -620,18 +620,23 @@ func ReadPacket(reader enc.ParseReader) (*Packet, *PacketParsingContext, error) 
 		if ret.Data.NameV == nil {
 			return nil, nil, ndn.ErrInvalidValue{Item: "Data.Name", Value: nil}
 		}
-	} else if ret.Interest != nil {
+	}
+	if ret.Interest != nil {
+		// Checked whenever an Interest is returned, also when the reader held a Data
+		// as well: callers look at the Interest first.
 		err = checkInterest(ret.Interest, &context.Interest_context)
 		if err != nil {
 			return nil, nil, err
 		}
-	} else if ret.LpPacket != nil {
+	}
+	if ret.Data == nil && ret.Interest == nil {
+		if ret.LpPacket == nil {
+			return nil, nil, ndn.ErrWrongType
+		}
 		// As a client we shouldn't receive IDLE packets
 		if ret.LpPacket.Fragment == nil {
 			return nil, nil, ndn.ErrInvalidValue{Item: "LpPacket.Fragment", Value: nil}
 		}
-	} else {
-		return nil, nil, ndn.ErrWrongType
 	}
 	return ret, context, nil
 }
